@@ -145,14 +145,14 @@ theorem fanin_maximal_run_terminal {c : FanIn.Cfg} {privs : List (List Nat)} {sh
     stopped at any point) satisfies `allowed`; the order clause applies to a single producer -/
 theorem fanin_allowed {c : FanIn.Cfg} {privs : List (List Nat)} {shared : List Nat} {k1 k2 : Nat} {s : FanIn.St}
     (hn : 0 < privs.length) (h : FanIn.Reachable c privs shared k1 k2 s) (ht : s.terminal = true) :
-    allowed (decide (privs.length = 1)) (privs.flatten ++ shared) (FanIn.outcome s) = true := by
+    allowed (decide (privs.length = 1)) (privs.flatten ++ shared) (FanIn.outcome c s) = true := by
   have hg := FanIn.reachable_good h
   have hle : countLe s.got (privs.flatten ++ shared) = true := by
     simp only [countLe, List.all_eq_true, decide_eq_true_eq]
     intro x _
     exact C01.fanin_no_invention h x
-  have hleak : (FanIn.outcome s).leaked = 0 := FanIn.terminal_noleak ht
-  have hle' : countLe (FanIn.outcome s).delivered (privs.flatten ++ shared) = true := hle
+  have hleak : (FanIn.outcome c s).leaked = 0 := FanIn.terminal_noleak ht
+  have hle' : countLe (FanIn.outcome c s).delivered (privs.flatten ++ shared) = true := hle
   unfold allowed
   simp only [Bool.and_eq_true, Bool.or_eq_true, Bool.not_eq_true', beq_iff_eq]
   refine ⟨⟨⟨hleak, hle'⟩, ?_⟩, ?_⟩
@@ -160,16 +160,19 @@ theorem fanin_allowed {c : FanIn.Cfg} {privs : List (List Nat)} {shared : List N
   · cases he : s.envStopped with
     | true => simp
     | false =>
+     cases hv : c.invalid with
+     | true => simp
+     | false =>
       right
-      have hp := C01.fanin_terminal_multiset_eq hn h he ht
+      have hp := C01.fanin_terminal_multiset_eq hn hv h he ht
       have hi := hg.inv
       simp only [FanIn.St.terminal, FanIn.St.allExited, Bool.and_eq_true, Bool.or_eq_true, decide_eq_true_eq, Bool.not_eq_true'] at ht
       obtain ⟨_, hdone⟩ := ht
-      obtain ⟨_, c2, _, _, c5⟩ := hg.clean he
+      obtain ⟨_, c2, _, _, c5⟩ := hg.clean hv he
       have hwd := hi.done_wdone hdone
       have hcl : s.closed = true := by simpa [FanIn.St.wdone, c2] using hwd
       have hk := (c5 hcl).2.2
-      refine ⟨by simp [hdone, hi.pclosed_kst.mpr hk], ?_⟩
+      refine ⟨by simp [hdone, hi.kst_pclosed hk], ?_⟩
       simp only [countEq, List.all_eq_true, beq_iff_eq]
       intro x _
       exact hp.count_eq x
@@ -252,9 +255,12 @@ theorem fanout_allowed {c : FanOut.Cfg} {input : List Nat} {k1 k2 : Nat} {s : Fa
   · cases he : s.envStopped with
     | true => simp
     | false =>
+     cases hv : c.invalid with
+     | true => simp
+     | false =>
       right
-      have hp := C01.fanout_terminal_multiset_eq hwf h he ht
-      obtain ⟨hdone, heof⟩ := FanOut.terminal_eof hg hwf he ht
+      have hp := C01.fanout_terminal_multiset_eq hwf hv h he ht
+      obtain ⟨hdone, heof⟩ := FanOut.terminal_eof hg hwf hv he ht
       refine ⟨by simp [hdone, heof], ?_⟩
       simp only [countEq, List.all_eq_true, beq_iff_eq]
       intro x _
@@ -284,6 +290,52 @@ theorem fanout_blocked_consumer_released {c : FanOut.Cfg} {s s1 : FanOut.St} {a 
     ∃ s2, FanOut.step c s1 .cCtx = some s2 ∧ s2.cons = .done := by
   rcases ha with rfl | rfl <;> simp only [FanOut.step] at h1 <;> split at h1 <;> cases h1 <;>
     simp [FanOut.step, hp, FanOut.St.wdone]
+
+/-! ## Rejected option sets (`Cfg.invalid`)
+
+A constructor given options the library rejects still hands out an iterator / worker. `init` of the
+models describes what each really does (table in `FunModel/Pipe.lean`): Map and GenerateParallel
+close their output channel at construction (and still start their goroutines on the first advance),
+ProcessParallel cancels its own context before it starts the workers. Termination and absence of
+leaks for these configurations are the *general* theorems above (`fanout_no_deadlock`,
+`fanout_no_deadlock_after_stop`, `*_measure_decreases`, `*_maximal_run_terminal`, `*_allowed`, and the
+FanIn ones): they hold for every `Cfg`, `invalid` included. What is specific to the path: -/
+
+/-- FanOut with rejected options: nothing is ever delivered, in any reachable state of any schedule -/
+theorem fanout_invalid_nothing_delivered {c : FanOut.Cfg} {input : List Nat} {k1 k2 : Nat} {s : FanOut.St}
+    (hwf : c.wf) (hv : c.invalid = true) (h : FanOut.Reachable c input k1 k2 s) : s.got ++ s.seen = [] := by
+  have hi := (FanOut.reachable_good h).inv
+  cases ho : c.hasOut with
+  | true => simp [(hi.invalid_out hv ho).2.1, hi.hasout ho]
+  | false => simp [(hi.noout ho).2.1, (hi.invalid_noout hv ho).2.2.2.1]
+
+/-- … and the consumer of the output reaches io.EOF at once: whenever it is parked in ReadOne its `cEof`
+    action is enabled (the output is closed and empty), and that ends its drain loop -/
+theorem fanout_invalid_eof_at_once {c : FanOut.Cfg} {input : List Nat} {k1 k2 : Nat} {s : FanOut.St}
+    (hv : c.invalid = true) (ho : c.hasOut = true) (h : FanOut.Reachable c input k1 k2 s) (hp : s.cons = .parked) :
+    ∃ s', FanOut.step c s .cEof = some s' ∧ s'.cons = .done := by
+  obtain ⟨i1, _, i3⟩ := (FanOut.reachable_good h).inv.invalid_out hv ho
+  simp [FanOut.step, hp, i1, i3]
+
+/-- … without an output (ProcessParallel): no worker ever advances its split output, the reader goroutine
+    is never started and no item reaches the user function -/
+theorem fanout_invalid_no_worker_advances {c : FanOut.Cfg} {input : List Nat} {k1 k2 : Nat} {s : FanOut.St}
+    (hv : c.invalid = true) (ho : c.hasOut = false) (h : FanOut.Reachable c input k1 k2 s) :
+    s.rd = .notStarted ∧ s.idle = 0 ∧ s.hold = [] ∧ s.seen = [] ∧ s.src = input := by
+  have hg := FanOut.reachable_good h
+  obtain ⟨_, i2, i3, i4, i5⟩ := hg.inv.invalid_noout hv ho
+  exact ⟨i5, i2, i3, i4, hg.inv.src_untouched i5⟩
+
+/-- FanIn with rejected options: nothing is ever delivered -/
+theorem fanin_invalid_nothing_delivered {c : FanIn.Cfg} {privs : List (List Nat)} {shared : List Nat} {k1 k2 : Nat}
+    {s : FanIn.St} (hv : c.invalid = true) (h : FanIn.Reachable c privs shared k1 k2 s) : s.got = [] :=
+  ((FanIn.reachable_good h).inv.invalid_closed hv).2.1
+
+theorem fanin_invalid_eof_at_once {c : FanIn.Cfg} {privs : List (List Nat)} {shared : List Nat} {k1 k2 : Nat}
+    {s : FanIn.St} (hv : c.invalid = true) (h : FanIn.Reachable c privs shared k1 k2 s) (hp : s.cons = .parked) :
+    ∃ s', FanIn.step c s .cEof = some s' ∧ s'.cons = .done := by
+  obtain ⟨i1, _, i3⟩ := (FanIn.reachable_good h).inv.invalid_closed hv
+  simp [FanIn.step, hp, i1, i3]
 
 /-! ## Split with per-output contexts: finding D25 -/
 
@@ -332,5 +384,16 @@ example :
     ∃ s, FanOut.run c (FanOut.init c [1, 2, 3] 0 1) [.cStart, .wAdvance, .wAdvance, .rRead, .rHandoff, .rRead, .cancel] = some s ∧
       s.ucancel = true ∧ s.allExited c = false ∧ s.cons = .parked ∧ c.wf := by
   refine ⟨_, rfl, ?_, ?_, ?_, ?_⟩ <;> decide
+
+/-- Map with 2 workers over 1 2 with a rejected option set: the output is closed from the start; a worker
+    still takes an item, meets the closed output (`wSendClosed`, which cancels the group) and everything
+    unwinds; the consumer saw io.EOF at its first ReadOne and received nothing -/
+example :
+    let c : FanOut.Cfg := { n := 2, hasOut := true, outCap := 0, hasCloser := true, closerCtx := true, onceGo := false,
+                            lazy := true, workerCancels := true, invalid := true }
+    ∃ s, FanOut.run c (FanOut.init c [1, 2] 0 0)
+      [.cStart, .wAdvance, .rRead, .rHandoff, .cEof, .wSendClosed 0, .wCtxFresh, .rCtx, .kCancel, .kClose] = some s ∧
+      s.terminal c = true ∧ s.got = [] ∧ s.droppedW = [1] ∧ s.envStopped = false ∧ c.wf := by
+  refine ⟨_, rfl, ?_, ?_, ?_, ?_, ?_⟩ <;> decide
 
 end FunModel.C04
